@@ -24,7 +24,7 @@ import (
 )
 
 func TestMain(m *testing.M) {
-	hx.Main(m, "C16", func() { debug.SetMaxStack(128 << 20) })
+	hx.Main(m, "C16", func() { debug.SetMaxStack(128 << 20); gen.BoundaryArrayLens = true })
 }
 
 // tcase is one replayable case.
